@@ -141,14 +141,29 @@ class RInt:
         raise Unsupported("non-linear integer product in R-mode")
     __rmul__ = __mul__
 
+    def _qr(self, d):
+        """floor quotient and remainder by a positive constant as fresh integers tied by
+        linear constraints (x = q*d + r, 0 <= r < d) - much easier for the solver than div/mod terms."""
+        c = ctx()
+        cache = c.notes.setdefault("rint_qr", {})
+        key = (self.e.get_id(), d)
+        if key not in cache:
+            qv = z3.Int(c.name("q"))
+            rv = z3.Int(c.name("r"))
+            c.add(z3.And(self.e == qv * d + rv, rv >= 0, rv < d))
+            import math
+
+            cache[key] = (RInt(qv, math.floor(self.lo / d), math.floor(self.hi / d)), RInt(rv, 0, d - 1), self.e)
+        return cache[key][0], cache[key][1]
+
     def __floordiv__(self, o):
         if type(o) is int and o > 0:
-            return RInt(self.e / o, self.lo // o, self.hi // o + 1)  # z3 Int div = floor for positive divisor
+            return self._qr(o)[0]
         raise Unsupported("floor division by symbolic/non-positive value in R-mode")
 
     def __mod__(self, o):
         if type(o) is int and o > 0:
-            return RInt(self.e % o, 0, o - 1)
+            return self._qr(o)[1]
         raise Unsupported("modulo by symbolic/non-positive value in R-mode")
 
     def __divmod__(self, o): return self // o, self % o
